@@ -98,12 +98,19 @@ let is_prefix_del del acc =
   go del acc
 
 (* ---- channel ---- *)
-let chan_setup ws maxtry =
+(* [chan <wk> <rm> ...] names the mode; [chanflags <flags> ...] gives the raw flags integer and the
+   model's mode table (mk_cfg_flags = flag_wk / flag_rm of coq/C01/Dispatch.v) selects the mode *)
+let chan_setup kind ws maxtry =
+  let ws = (match kind, ws with
+      | "chanflags", f :: rest -> "#" :: f :: rest
+      | _ -> ws) in
   match ws with
   | wk :: rm :: cap :: nread :: ks ->
     let ks = Array.of_list (List.map int_of_string ks) in
     let nw = Array.length ks in
-    let g = mk_cfg (wk_of wk) (rm_of rm) (z_of_int (int_of_string cap)) (nat_of_int nw) (nat_of_int maxtry) in
+    let g =
+      if wk = "#" then mk_cfg_flags (z_of_int (int_of_string rm)) (z_of_int (int_of_string cap)) (nat_of_int nw) (nat_of_int maxtry)
+      else mk_cfg (wk_of wk) (rm_of rm) (z_of_int (int_of_string cap)) (nat_of_int nw) (nat_of_int maxtry) in
     let st0 = cinit g (nat_of_int (int_of_string nread))
         (fun t -> let i = int_of_nat t in if i >= 1 && i <= nw then nat_of_int ks.(i - 1) else O) in
     Some (g, st0, nw)
@@ -224,7 +231,7 @@ let handle (lines : string list) : unit =
   let (cfgl, trace) = split [] lines in
   let scen = ref [] and prm = ref sc_params and explore = ref None and maxtry = ref 0 and msched = ref None and guide = ref None in
   List.iter (fun l -> match words l with
-    | ("chan" | "abq" | "dbuf") :: _ as w -> scen := w
+    | ("chan" | "chanflags" | "abq" | "dbuf") :: _ as w -> scen := w
     | "params" :: ps -> prm := params_of ps
     | ["maxtry"; n] -> maxtry := int_of_string n
     | ["explore"; sd; runs] -> explore := Some (int_of_string sd, int_of_string runs)
@@ -232,8 +239,8 @@ let handle (lines : string list) : unit =
     | "modelsched" :: s -> msched := Some s
     | _ -> ()) cfgl;
   match !scen with
-  | "chan" :: ws ->
-    (match chan_setup ws !maxtry with
+  | ("chan" | "chanflags" as kind) :: ws ->
+    (match chan_setup kind ws !maxtry with
      | None -> print_endline "F badcase"
      | Some (g, st0, nw) ->
        (match !msched, !explore with
